@@ -69,7 +69,15 @@ func genRemote(p *simkit.Plan, r *simkit.Rand, tier string) {
 		n = r.Range(2, 25)
 	}
 	for i := 0; i < n; i++ {
-		switch r.Weighted([]int{35, 30, 20, 8, 7, 5}) {
+		switch r.Weighted([]int{35, 30, 20, 8, 7, 5, 6, 5}) {
+		case 6:
+			// Calls a well-behaved controller never makes: a transition with an
+			// empty list, or the previous list again without a new scan.
+			p.Ops = append(p.Ops, simkit.Op{Actor: "driver", Kind: "xtransition", N: []int64{int64(r.Intn(2))}})
+		case 7:
+			// Staging out of turn: the previous request again (or an empty one)
+			// without a new scan.
+			p.Ops = append(p.Ops, simkit.Op{Actor: "driver", Kind: "xstage", N: []int64{int64(r.Intn(2))}})
 		case 5:
 			// The roots vanish, are scanned while absent, and return unchanged.
 			p.Ops = append(p.Ops, simkit.Op{Actor: "driver", Kind: "scan", N: []int64{int64(r.Intn(2))}},
@@ -198,12 +206,86 @@ func execRemote(t *testing.T, plan *simkit.Plan) *simkit.Result {
 				}
 				return ls, rs, true
 			}
+			var lastTransitions []*core.Change
+			var lastPaths []string
+			var lastDigests [][]byte
 			for _, op := range plan.Ops {
 				if op.Actor != "driver" || s.PassThrough() || s.Violated() {
 					continue
 				}
 				s.Gate("driver", op.Kind)
 				switch op.Kind {
+				case "xtransition":
+					ts := lastTransitions
+					if op.Int(0) == 0 {
+						ts = nil
+					}
+					lres, lprob, lmiss, lerr := loc.Transition(ctx, ts)
+					rres, rprob, rmiss, rerr := rem.Transition(ctx, ts)
+					s.Count("probe.out_of_turn_transitions_compared", 1)
+					if lerr == nil && rerr != nil {
+						if remoteFailed("Transition", rerr) {
+							return
+						}
+						continue
+					}
+					if lerr != nil && rerr == nil {
+						s.Violate("C21", "transition-error-differs", "Transition", "out-of-turn transition with %d changes: the local endpoint refuses it (%v), the remote one accepts it", len(ts), lerr)
+						return
+					}
+					if lerr != nil {
+						// Both refuse. The agent connection ends at the first
+						// endpoint error (by design: the controller reconnects),
+						// so there is nothing further to compare in this run.
+						s.Count("probe.both_refused_out_of_turn", 1)
+						return
+					}
+					if lerr == nil && (len(lres) != len(rres) || lmiss != rmiss || fmt.Sprint(problemPaths(lprob)) != fmt.Sprint(problemPaths(rprob))) {
+						s.Violate("C21", "transition-results-differ", "Transition", "out-of-turn transition: local %d results missing=%v problems %v, remote %d results missing=%v problems %v", len(lres), lmiss, problemPaths(lprob), len(rres), rmiss, problemPaths(rprob))
+						return
+					}
+					for i := range lres {
+						if lerr == nil && !deepEqual(lres[i], rres[i]) {
+							s.Violate("C21", "transition-results-differ", "Transition", "out-of-turn change at %q: local result %s, remote result %s", ts[i].Path, render(lres[i]), render(rres[i]))
+						}
+					}
+				case "xstage":
+					paths, digests := lastPaths, lastDigests
+					if op.Int(0) == 1 {
+						paths, digests = nil, nil
+					}
+					fl, sl, rl, lerr := loc.Stage(append([]string(nil), paths...), digests)
+					fr, sr, rr, rerr := rem.Stage(append([]string(nil), paths...), digests)
+					s.Count("probe.out_of_turn_stagings_compared", 1)
+					if lerr == nil && rerr != nil {
+						if remoteFailed("Stage", rerr) {
+							return
+						}
+						continue
+					}
+					if lerr != nil && rerr == nil {
+						s.Violate("C21", "staging-error-differs", "Stage", "out-of-turn staging of %d paths: the local endpoint refuses it (%v), the remote one accepts it", len(paths), lerr)
+						return
+					}
+					if lerr != nil {
+						s.Count("probe.both_refused_out_of_turn", 1)
+						return
+					}
+					if lerr == nil && (fmt.Sprint(fl) != fmt.Sprint(fr) || len(sl) != len(sr)) {
+						s.Violate("C21", "staging-requirements-differ", "Stage", "out-of-turn staging: local needs %v (%d signatures), remote needs %v (%d signatures)", fl, len(sl), fr, len(sr))
+						return
+					}
+					if len(fl) > 0 {
+						// An accepted staging request must be followed by the
+						// file data (the receiver has to be driven to its end).
+						if err := src.Supply(fl, sl, rl); err == nil {
+							if err := src.Supply(fr, sr, rr); err != nil && remoteFailed("Supply-to-remote", err) {
+								return
+							}
+						} else {
+							return
+						}
+					}
 				case "scan":
 					if _, _, ok := scanBoth(op.Int(0) == 1); !ok {
 						return
@@ -272,6 +354,7 @@ func execRemote(t *testing.T, plan *simkit.Plan) *simkit.Result {
 						continue
 					}
 					paths, digests := core.TransitionDependencies(transitions)
+					lastTransitions, lastPaths, lastDigests = transitions, paths, digests
 					if len(paths) > 0 {
 						fl, sl, rl, lerr := loc.Stage(append([]string(nil), paths...), digests)
 						fr, sr, rr, rerr := rem.Stage(append([]string(nil), paths...), digests)
